@@ -140,6 +140,11 @@ impl Tables {
 pub struct Model {
     pub t: Tables,
     pub marks_ever: bool,
+    /// blocks that arrived (remove_by_block) while their in-flight state was orphaned (its peer
+    /// had already been dropped by prune, the state left behind) after a slow-block mark had been
+    /// set: the precondition of the listed finding `inflight.prune.released_young_entry` (the
+    /// mark of such a block is not cleared on arrival). Cleared when the stale mark has fired.
+    pub stale_mark_possible: BTreeSet<usize>,
 }
 
 pub struct Fail {
@@ -395,6 +400,8 @@ pub fn step(
             if let Some((p, _)) = m.t.states.remove(&b) {
                 if let Some(s) = m.t.lists.get_mut(&p) {
                     s.remove(&b);
+                } else if m.marks_ever {
+                    m.stale_mark_possible.insert(b);
                 }
             }
         }
@@ -479,8 +486,11 @@ pub fn step(
                     ));
                 }
                 if age <= low.min(BLOCK_DOWNLOAD_TIMEOUT) {
+                    // the listed finding needs its precondition in this run's own history: the
+                    // block arrived once while its state was orphaned and a mark existed
+                    let listed_cause = m.stale_mark_possible.remove(b);
                     return Err(fail(
-                        "inflight.prune.released_young_entry".into(),
+                        if listed_cause { "inflight.prune.released_young_entry".into() } else { "inflight.prune.released_young_entry@no_arrival_of_an_orphaned_state_before".into() },
                         format!(
                             "prune({tip}) at {now}: block {} released at age {age} ms, younger than the smallest timeout ({low} ms slow-block limit)",
                             u.describe(*b)
